@@ -541,6 +541,9 @@ func scenSigMut(rep *Report, tier string, seed int64) {
 			add("duplicated-pair", cloneEntryWith(orig, append(extCopy(orig), ext[1], ext[2]), orig.Content))
 			add("swapped-rcd-signature", cloneEntryWith(orig, [][]byte{ext[0], ext[2], ext[1]}, orig.Content))
 			add("extra-extid", cloneEntryWith(orig, append(extCopy(orig), []byte("x")), orig.Content))
+			// no external ids at all (neither salt nor signature): the same content, bare
+			add("no-extids", cloneEntryWith(orig, nil, orig.Content))
+			add("only-salt", cloneEntryWith(orig, ext[:1], append([]byte{}, orig.Content...)))
 			// signed by somebody else's key
 			other := g.Users[1]
 			content, _ := json.Marshal(struct {
